@@ -37,42 +37,42 @@ ALL = ["res", "handles", "alive", "snap", "query", "cursor", "log", "locked", "s
 
 PROPS = {
     "C01": prop(["res", "snap", "query", "cursor"],
-                runs(["generic", "noobs"], 250, 120), runs(["generic", "noobs", "relations", "batch"], 600, 150)),
+                runs(["generic", "noobs"], 250, 120), runs(["generic", "noobs", "relations", "batch"], 2500, 200)),
     "C02": prop(["res", "handles", "alive", "stats"],
-                runs(["pool", "generic"], 250, 120), runs(["pool", "generic", "batch"], 600, 150)),
+                runs(["pool", "generic"], 250, 120), runs(["pool", "generic", "batch"], 2500, 200)),
     "C03": prop(["res", "query", "cursor", "snap"],
-                runs(["queries", "relations"], 250, 120), runs(["queries", "relations", "generic"], 600, 150)),
+                runs(["queries", "relations"], 250, 120), runs(["queries", "relations", "generic"], 2500, 200)),
     "C04": prop(["res", "snap", "query"],
-                runs(["relations", "generic"], 250, 120), runs(["relations", "batch", "generic"], 600, 150)),
+                runs(["relations", "generic"], 250, 120), runs(["relations", "batch", "generic"], 2500, 200)),
     "C05": prop(["res", "query", "cursor"],
-                runs(["cache", "relations"], 250, 120), runs(["cache", "relations", "generic"], 600, 150)),
+                runs(["cache", "relations"], 250, 120), runs(["cache", "relations", "generic"], 2500, 200)),
     "C06": prop(["res", "snap", "log"],
-                runs(["batch", "relations"], 250, 120), runs(["batch", "relations", "generic"], 600, 150)),
+                runs(["batch", "relations"], 250, 120), runs(["batch", "relations", "generic"], 2500, 200)),
     "C07": prop(["res", "locked", "cursor", "log"],
-                runs(["lock", "generic"], 250, 120), runs(["lock", "generic", "observers"], 600, 150)),
+                runs(["lock", "generic"], 250, 120), runs(["lock", "generic", "observers"], 2500, 200)),
     "C08": prop(["res", "log"],
-                runs(["observers", "generic"], 250, 120), runs(["observers", "generic", "batch"], 600, 150)),
+                runs(["observers", "generic"], 250, 120), runs(["observers", "generic", "batch"], 2500, 200)),
     "C09": prop(["res", "log", "locked", "snap"],
-                runs(["observers", "batch"], 250, 120), runs(["observers", "batch", "relations"], 600, 150)),
+                runs(["observers", "batch"], 250, 120), runs(["observers", "batch", "relations"], 2500, 200)),
     "C10": prop(["res", "snap", "locked", "stats"],
-                runs(["stale", "generic"], 250, 120), runs(["stale", "generic", "relations"], 600, 150)),
+                runs(["stale", "generic"], 250, 120), runs(["stale", "generic", "relations"], 2500, 200)),
     "C11": prop(["res", "snap", "query"],
-                runs(["memory", "generic"], 250, 120), runs(["memory", "generic", "relations"], 600, 150)),
-    "C12": prop(ALL, runs(["generic", "relations"], 150, 120), runs(["generic", "relations", "batch", "observers"], 300, 150)),
-    "C13": prop(["res", "query", "locked"], runs(["queries"], 100, 100), runs(["queries", "cache"], 200, 120)),
+                runs(["memory", "generic"], 250, 120), runs(["memory", "generic", "relations"], 2500, 200)),
+    "C12": prop(ALL, runs(["generic", "relations"], 150, 120), runs(["generic", "relations", "batch", "observers"], 1200, 200)),
+    "C13": prop(["res", "query", "locked"], runs(["queries"], 100, 100), runs(["queries", "cache"], 800, 150)),
     "C14": prop(["res", "snap", "query", "cursor", "log"],
-                runs(["typed", "generic"], 250, 120), runs(["typed", "generic", "batch"], 600, 150)),
+                runs(["typed", "generic"], 250, 120), runs(["typed", "generic", "batch"], 2500, 200)),
     "C15": prop(["res", "snap", "query", "shrink", "stats", "cursor"],
-                runs(["shrink", "relations"], 250, 120), runs(["shrink", "relations", "cache"], 600, 150)),
+                runs(["shrink", "relations"], 250, 120), runs(["shrink", "relations", "cache"], 2500, 200)),
     "C16": prop(["res", "snap", "alive", "stats", "log", "query"],
-                runs(["reset", "generic"], 250, 120), runs(["reset", "generic", "observers"], 600, 150)),
+                runs(["reset", "generic"], 250, 120), runs(["reset", "generic", "observers"], 2500, 200)),
     "C17": prop(["res", "handles", "alive", "snap"],
-                runs(["dump", "pool"], 250, 120), runs(["dump", "pool", "generic"], 600, 150)),
+                runs(["dump", "pool"], 250, 120), runs(["dump", "pool", "generic"], 2500, 200)),
     "C18": prop(["res", "registry", "resources", "snap", "query"],
-                runs(["registry", "generic"], 150, 120), runs(["registry", "generic"], 400, 150)),
+                runs(["registry", "generic"], 150, 120), runs(["registry", "generic"], 1500, 200)),
     "C19": prop(["res", "stats"],
-                runs(["stats", "relations"], 250, 120), runs(["stats", "relations", "generic"], 600, 150)),
-    "C20": prop(ALL, runs(["tiny"], 150, 120), runs(["tiny", "tiny"], 300, 150)),
+                runs(["stats", "relations"], 250, 120), runs(["stats", "relations", "generic"], 2500, 200)),
+    "C20": prop(ALL, runs(["tiny"], 150, 120), runs(["tiny", "tiny"], 1200, 200)),
 }
 
 
